@@ -1,26 +1,31 @@
 """C06 — parsing always terminates.
 
-1. obligations: `harness/translate_earley.py` reads the admission policy of the chart from the source
-   (`ParseState.__hash__/__eq__`, `Column.add`, the covering cut in `complete`) → `Generated/Earley.lean`;
-   `Props/C06.lean` (finite core item space, termination of the core recogniser, the verdict for the generated
-   policy, the machine-checked divergence witness) is built and audited.
+1. obligations: `harness/translate_earley.py` reads the variant of the parser from the source (admission policy:
+   `ParseState.__hash__/__eq__`, `Column.add`, the covering cut in `complete`; the compilation of `{n,}`; the loop that
+   ends `predict`; the three scanner guards) → `Generated/Earley.lean`; `Props/C06.lean` (finite core item space,
+   termination of the core recogniser for all grammars, "no run is longer than stepBoundN(N) unless a column outgrows
+   N" for EVERY admission rule, the verdict for the generated variant, the OLD divergence witness) is built and audited.
 2. tie: every generated (grammar, start, input) is parsed by the real parser in a worker process under a step
    meter (`Column.add`, `IterativeParser.complete`, `ParseState()` counted).  Caps are counted in *steps*; the
    wall-clock alarm is a generous backstop whose expiry is never a verdict by itself (re-run alone; stalled meter =
    a loop outside the metered operations = violation, growing meter = machinery error).  The model (`drv_earley`) gets the
    same grammar, the same input, the regex oracle and the order in which `predict` added alternatives, and must
-   (a) finish with the core policy within the proved bound, (b) with the generated policy admit *the same states
-   per column* (core item + number of children, as multisets) and yield the same forest.
-3. the property on the real code: forest request, first-tree request and prefix request must all come back
-   before the cap.  A divergence inside the model's class `hasEpsCycle` (some nonterminal derives itself over the
-   same span: nullable body under `*`/`+`, nullable right recursion, unit cycles) is the known finding
-   `C06/nullable-under-unbounded-repetition`; a prefix request that diverges inside `prefix_cycle` (a nonterminal
-   reaches itself through the states the INCOMPLETE end-of-input loop force-completes: left recursion, a body that
-   starts with an empty-deriving nonterminal under a repetition) is `C06/prefix-completion-cycle`; a divergence
-   outside these classes is a violation.  Once the source carries the covering cut (translator: policy `acyclic`)
-   no class is excused any more.
+   (a) finish with the core policy within the proved bound, (b) with the generated variant admit *the same states
+   per column* (core item + number of children, as multisets) and yield the same forest, and (c) the real parser's
+   metered work must stay within (maxAlts + 2) x the model's step count.
+3. the property on the real code: forest request, first-tree request and prefix request must all come back.  The chart
+   of this parser holds one state per (item, children list): grammars with much same-span ambiguity (empty-deriving
+   bodies under nested repetitions) have finite but huge charts, so NO fixed step limit is a verdict.  A forest /
+   first-tree request over the limit is decided by the model: if the model finishes in S steps the real parser must
+   finish within (maxAlts + 2) * S metered steps — otherwise VIOLATION with the input; if the model does not finish
+   within its fuel either, the case is counted undecided and the two unfinished charts must agree in lock step.
+   While the source has the OLD admission rule (translator: policy `impl`) a divergence inside the model's class
+   `hasEpsCycle` is routed to `C06/nullable-under-unbounded-repetition`, a prefix divergence inside `prefix_cycle` to
+   `C06/prefix-completion-cycle` (both fixed in /repo: a hit is a violation again).  Prefix mode is not modelled:
+   prefix requests over the limit are counted inside the cyclic classes and decided by a 10x re-run outside them.
 4. fuzzing steps that parse internally (generator output parsed under its nonterminal; equality repair parsing the
-   wanted value) run under the same meter on cyclic and acyclic grammars.
+   wanted value) run under the same meter; a fuzz run over its limit is reduced to the parse request it makes
+   internally, which is judged as in 3.
 """
 from __future__ import annotations
 
@@ -101,6 +106,7 @@ def make_tasks(run: Run, tier: str, policy: str, variant: dict):
     n_eps = 0
     for g, c in zip(grammars, comp):
         eps = bool(c["epscycle"])
+        g["eps"] = eps
         if eps:
             n_eps += 1
             if g["origin"] in ("stress", "shared") and n_eps > (25 if quick else 200):
@@ -581,10 +587,10 @@ def fuzz_tasks(run: Run, tier: str, grammars: list[dict], comp_eps: dict, policy
             continue
         w = words[0]
         lines = [ln for ln in g["spec"].replace("<start>", "<c06g>").splitlines() if ln.strip()]
-        eps = comp_eps.get(g["spec"], False)
+        eps = bool(g.get("eps", comp_eps.get(g["spec"], False)))
         limit = 20_000 if eps and policy == "impl" else FUZZ_STEP_LIMIT
         base = {"cap_s": 30.0 if quick else 60.0, "step_limit": limit, "eps": eps, "word": w, "origin": g["origin"],
-                "seed": rng.randrange(1 << 30)}
+                "seed": rng.randrange(1 << 30), "parse_spec": "<start> ::= <c06g>\n" + "\n".join(lines) + "\n"}
         gen_lines = [ln + f' := "{w}"' if ln.startswith("<c06g> ::=") else ln for ln in lines]
         out.append({**base, "id": len(out), "kind": "generator",
                     "spec": "<start> ::= <c06g>\n" + "\n".join(gen_lines) + "\n", "constraints": None})
@@ -593,7 +599,10 @@ def fuzz_tasks(run: Run, tier: str, grammars: list[dict], comp_eps: dict, policy
     return out
 
 
-def judge_fuzz(run: Run, ftasks: list[dict], fres: list[dict], policy: str, undecided: list) -> None:
+def judge_fuzz(run: Run, ftasks: list[dict], fres: list[dict], policy: str, undecided: list, ctx: dict) -> None:
+    """`ctx`: what `judge` needs for the parse requests that fuzz runs over the limit are reduced to
+    ({"variant", "info", "tier", "corr_failures", "unbounded_outside"})"""
+    over: list[tuple[dict, dict, str, dict]] = []
     for t, r in zip(ftasks, fres):
         st = r.get("status", "killed")
         run.count("fuzz:" + t["kind"])
@@ -617,11 +626,32 @@ def judge_fuzz(run: Run, ftasks: list[dict], fres: list[dict], policy: str, unde
         if t["eps"] and policy == "impl":
             known(run, SIG_KNOWN, what, {**rp, "class": "hasEpsCycle"})
             continue
+        over.append((t, r, what, rp))
+    if not over:
+        return
+    # A fuzz run over its step limit is reduced to the parse request it makes internally — the value parsed under
+    # <c06g> with the same grammar — which is judged like every other parse request (model-derived bound, lock step;
+    # finite explosions of the chart are not divergence).  Only if that request comes back is the fuzz run itself
+    # asked again with a 10x limit.
+    ptasks = [{"id": f"F{i}", "spec": t["parse_spec"], "start": "<c06g>", "word": eio.word_json(t["word"]),
+               "cap_s": 90.0, "step_limit": STEP_LIMIT, "max_trees": 300, "modes": True, "eps_pre": t["eps"],
+               "tags": ["fuzz_internal_parse"]} for i, (t, _r, _w, _rp) in enumerate(over)]
+    preals = eio.run_pool(ptasks, workers=14, backstop_s=120.0)
+    pcore, ppol = model_runs(preals, ptasks, policy, ctx["variant"], ctx["tier"])
+    judge(run, ptasks, preals, pcore, ppol, policy, ctx["corr_failures"], ctx["info"], undecided, ctx["unbounded_outside"])
+    for (t, r, what, rp), pr in zip(over, preals):
+        if "grammar" not in pr:
+            run.count("undecided:fuzz_over_limit_internal_parse_request_not_reproduced:" + str(pr.get("status"))[:40])
+            continue
+        if diverged(pr) is not None:
+            run.count("fuzz:over_limit_attributed_to_its_parse_request")      # judged above, as a parse request
+            continue
         rr = eio.run_pool([{**t, "step_limit": 10 * t["step_limit"], "cap_s": 600.0}], workers=1, backstop_s=120.0,
                           fn=c06_fuzz.fuzz_case)[0]
         if rr.get("status") == "steplimit" or (rr.get("status") == "exc:RecursionError"
                                                and (rr.get("meter") or {}).get("adds", 0) >= 1000):
-            run.report("C06/divergence-in-fuzz", what + " — outside hasEpsCycle, still over a 10x step limit", rp)
+            run.report("C06/divergence-in-fuzz", what + " — the parse request it makes internally comes back "
+                       f"({pr.get('status')}, {pr.get('meter')}), the fuzz run is still over a 10x step limit", rp)
         else:
             run.count("fuzz:finished_with_10x_limit")
 
@@ -643,9 +673,12 @@ def main(tier: str) -> int:
     known_reproducer(run, policy)
     tasks, grammars = make_tasks(run, tier, policy, variant)
     reals = eio.run_pool(tasks, workers=14, backstop_s=120.0)
+    bad_tables, n_tables = eio.compile_corr(tasks, reals, variant["cap"])
+    corr_failures.extend(bad_tables)
+    run.count("corr:compiled_tables_compared", n_tables)
+    run.count("corr:compiled_tables_equal", n_tables - len(bad_tables))
     core, pol = model_runs(reals, tasks, policy, variant, tier)
     judge(run, tasks, reals, core, pol, policy, corr_failures, info, undecided, unbounded_outside)
-    judge_unbounded(run, unbounded_outside)
     run.coverage["t_parse_phase_s"] = round(run.budget_left(0) * -1, 1)
     comp_eps = {}
     for t, mc in zip(tasks, core):
@@ -653,7 +686,10 @@ def main(tier: str) -> int:
             comp_eps[t["spec"]] = bool(mc["epscycle"])
     ftasks = fuzz_tasks(run, tier, grammars, comp_eps, policy)
     fres = eio.run_pool(ftasks, workers=14, backstop_s=120.0, fn=c06_fuzz.fuzz_case)
-    judge_fuzz(run, ftasks, fres, policy, undecided)
+    judge_fuzz(run, ftasks, fres, policy, undecided,
+               {"variant": variant, "info": info, "tier": tier, "corr_failures": corr_failures,
+                "unbounded_outside": unbounded_outside})
+    judge_unbounded(run, unbounded_outside)
     run.coverage["undecided_wallclock"] = undecided[:5]
     if undecided:
         raise MachineryError(f"{len(undecided)} requests stopped by the wall-clock backstop with a moving meter "
